@@ -124,7 +124,7 @@ class Check(common.Check):
                 v = tempo() * (-1 if rng.random() < 0.15 else 1)
                 ops.append('etempo ' + fq(v if rng.random() > 0.05 else 0))
             elif r < 0.34:
-                ops.append('beats ' + fq(value()))
+                ops.append(rng.choice(['beats ', 'beats ', 'obeats ']) + fq(value()))
             elif r < 0.42:
                 v = meter()
                 q = rng.random()
@@ -169,6 +169,16 @@ class Check(common.Check):
                 ops.append('q nextbar ' + (fq(value()) if rng.random() < 0.6 else '-'))
             else:
                 ops.append('q ' + rng.choice(['beats', 'tempo', 'beatdur', 'ebeats', 'bar', 'bar', 'bib', 'bib']))
+        if rng.random() < 0.3:
+            # a beats jump by a non-multiple of the quant, then the grid / bar line / play(quant) are asked
+            q = rng.choice([1, 2, 3, 4, 4, 8]) if not approx else rng.choice([3, 1.5, 4])
+            jump = value() + Fraction(rng.choice([1, 3, 5, 7]), 8)
+            ops.append(rng.choice(['beats ', 'obeats ']) + fq(jump))
+            tail = [f'q ntog {num(Fraction(q), Fraction(q).denominator == 1)} i:0 -', 'q nextbar -',
+                    f'q playat {num(Fraction(q), Fraction(q).denominator == 1)} i:0 ' + rng.choice(['clock:Q', 'rplay:N', 'deco:L']),
+                    'q bar', 'q bib']
+            rng.shuffle(tail)
+            ops += tail[:rng.randint(2, 5)]
         c = {'init': ' '.join(init), 'start': start, 'ops': ops}
         if rng.random() < 0.5:        # a second routine on the same clock
             c['ticker'] = {'d': fq(Fraction(rng.choice([1, 1, 2, 3, 5, 3, 6]), rng.choice([1, 2, 4]))),
@@ -251,6 +261,7 @@ class Check(common.Check):
         if prev is None:
             return None
         wake = prev['beats']
+        origin, obar = Fraction(0), Fraction(0)       # bar origin: moved only by a meter change
         if prev['bbb'] != 0 or prev['bbar'] != 0 or prev['bpb'] != 4:
             return {'what': f'a new clock ({case["init"]}) counts its grid from base_bar_beat {float(prev["bbb"])}, bar '
                             f'{float(prev["bbar"])}, {float(prev["bpb"])} beats per bar; documented: beat 0, bar 0, 4 beats per bar '
@@ -286,6 +297,12 @@ class Check(common.Check):
                 return bad(k, 'output', 'no snapshot')
             P, C = prev, cur
             is_err = res.startswith('E:')
+            if op[0] == 'bpb':
+                origin, obar = C['bbb'], C['bbar']    # checked below (meter-rebase)
+            elif not close(C['bbb'], origin, tol) or not close(C['bbar'], obar, tol):
+                return bad(k, 'grid-origin', f'the bar origin moved from beat {float(origin)} (bar {float(obar)}) to beat '
+                                             f'{float(C["bbb"])} (bar {float(C["bbar"])}) without a meter change: grid '
+                                             f'points are base_bar_beat + k*quant + phase counted from the last meter change')
             val = F(res[2:]) if res.startswith('v:') else None
             if op[0] == 'wait':
                 d = F(op[1])
@@ -312,7 +329,7 @@ class Check(common.Check):
             if C['bpb'] == 0 and op[0] == 'q' and op[1] in ('nextbar', 'bar', 'bib', 'invbars', 'b2bars', 'bars2b'):
                 prev = cur
                 continue                          # meter 0 (rejected by the setter, but already stored)
-            elif op[0] == 'beats':
+            elif op[0] in ('beats', 'obeats'):
                 v = F(op[1])
                 if is_err or not close(C['beats'], v, tol) or C['tempo'] != P['tempo'] or not close(C['now'], P['now'], tol):
                     return bad(k, 'beats-set', f'current beat is {float(C["beats"])} after setting {float(v)}')
@@ -404,7 +421,7 @@ class Check(common.Check):
         changed = False
         for line in case['ops']:
             w = line.split()
-            if w[0] in ('tempo', 'etempo', 'beats', 'bpb'):
+            if w[0] in ('tempo', 'etempo', 'beats', 'obeats', 'bpb'):
                 changed = True
             elif changed and w[0] == 'q' and w[1] in ('ntog', 'playat', 'invb', 'invs', 'invbars', 'nextbar', 'bar', 'bib'):
                 return True
